@@ -17,6 +17,3 @@ func VerifDisable() {
 	CGFEnable = false
 	cgf = nil
 }
-
-// VerifConnected reports whether a control connection is currently cached.
-func VerifConnected() bool { return cgf != nil && cgf.conn != nil }
